@@ -195,8 +195,14 @@ def gen_param_case(rng, tier):
         if rng.random() < 0.6:
             d["defaults"]["X"] = rng.randint(-4, 4) / 8.0 + 0.0625      # the new parameter's default changed after add_param
     visible = [n for n in pnames if n not in [a["old"] for a in d["adds"]]] + [a["new"] for a in d["adds"]] + ["wl"]
+    if any(blk["k"] == "wg" for chain in parts for blk in chain) and rng.random() < 0.3:
+        # the wavelength itself is a derived parameter (wl = 2 F): every part must derive it like the original does
+        d["adds"].append({"old": "wl", "new": "F", "scale": 2, "default": 0.75})
+        d["defaults"].pop("wl", None)
+        visible = [n for n in visible if n != "wl"] + ["F"]
     for _ in range(2):
-        kw = {n: rng.randint(-8, 8) / 8.0 + (1.5 if n == "wl" else 0.0) for n in visible if rng.random() < 0.5}
+        kw = {n: (0.5 + rng.randint(0, 8) / 8.0) if n == "F" else rng.randint(-8, 8) / 8.0 + (1.5 if n == "wl" else 0.0)
+              for n in visible if rng.random() < 0.5}
         d["assign"].append(kw)
     d["assign"].append({})
     if rng.random() < 0.5:
@@ -228,15 +234,15 @@ def build_param(d):
             ends.append((f"i{pi}", f"o{pi}"))
         for a in d["adds"]:
             sc = a["scale"]
-            lk.add_param(a["old"], (lambda sc: (lambda X=a["default"]: sc * X))(sc), default={a["new"]: a["default"]})
+            lk.add_param(a["old"], (lambda sc, nm: (lambda **kw: sc * kw[nm]))(sc, a["new"]), default={a["new"]: a["default"]})
         lk.update_default_params(dict(d["defaults"]))
     return sol, ends
 
 
-def run_param(d):
+def run_param(d, only_expected=False):
     """returns (expected values from the original solver, observed values from the parts)"""
     sol, ends = build_param(d)
-    if "wl" not in d["defaults"]:
+    if "wl" not in d["defaults"] and not any(a["old"] == "wl" for a in d["adds"]):
         for kw in d["assign"]:
             kw.setdefault("wl", 1.25)
     expected = []
@@ -246,6 +252,8 @@ def run_param(d):
             for a in (i, o):
                 for b in (i, o):
                     expected.append(complex(r.get_A(a, b)))
+    if only_expected:
+        return (expected + expected if not d.get("late_default") else expected), None
     parts = sol.split()
     if len(parts) != len(ends):
         raise ValueError("split returned %d parts for %d chains" % (len(parts), len(ends)))
@@ -303,7 +311,7 @@ class SplitParams(Stream):
         from common import cf, cvec
         d = copy.deepcopy(d)
         try:
-            expected, _ = run_param(copy.deepcopy(d))
+            expected, _ = run_param(copy.deepcopy(d), only_expected=True)     # the ORIGINAL alone: the oracle
         except Exception:
             return "{| vc_expected := []; vc_obs := Obs [] |}"       # the original itself cannot answer: not a case
         try:
